@@ -323,6 +323,26 @@ theorem run_refines (c : Crypto) (alg : Alg) (ops : List Op) (s : Store) (hi : I
     have : (lookup (s.step c alg op).idx) = absStep c alg (lookup s.idx) op := funext h1.2
     rw [this]
 
+/-! ## connectHandler: the two authentication branches -/
+
+/-- For a decodable CONNECT exactly one of the two `if`s of `connectHandler` is taken — whatever the Authentication
+    Method property is: absent (`none`), present and empty (`some ""`), present and non-empty. -/
+theorem branches_partition (p : ConnectPkt) (hv : p.v = 3 ∨ p.v = 4 ∨ p.v = 5) (hv3 : p.v ≠ 5 → p.authMethod = none) :
+    basicBranch p = !enhancedBranch p := by
+  unfold basicBranch enhancedBranch
+  rcases hv with h | h | h
+  · have := hv3 (by omega); simp [h, this, isV3]
+  · have := hv3 (by omega); simp [h, this, isV3]
+  · cases hm : p.authMethod <;> simp [h, isV3]
+
+theorem connectHandler_of_basic (cfg : Cfg) (p : ConnectPkt) (hz : (!cfg.allowZeroLenCid && p.cidEmpty) = false)
+    (hb : basicBranch p = true) (he : enhancedBranch p = false) : connectHandler cfg p = basicAuth cfg p := by
+  simp [connectHandler, hz, hb, he]
+
+theorem connectHandler_of_enhanced (cfg : Cfg) (p : ConnectPkt) (hz : (!cfg.allowZeroLenCid && p.cidEmpty) = false)
+    (he : enhancedBranch p = true) : connectHandler cfg p = enhancedAuth cfg p := by
+  simp [connectHandler, hz, he]
+
 /-! ## the connect-phase FSM -/
 
 def Eff.quiet : Eff → Bool
